@@ -854,7 +854,41 @@ func RaceBody() int {
 	}
 	close(start)
 	wg.Wait()
-	fmt.Printf("racebody: 4 goroutines x 2000 iterations, mismatches=%d\n", mism)
+	// second phase: every policy of the sequential-history family, 4 goroutines each walking all of its inputs
+	// (rotated starting points) six times over, results compared with the sequential ones
+	ins := c13SeqInputs()
+	calls2 := 0
+	for _, s := range c13SeqSpecs() {
+		p := spec.Build(s)
+		ref := spec.Build(s)
+		want := make([]string, len(ins))
+		for i, in := range ins {
+			want[i] = ref.Sanitize(in)
+		}
+		var wg2 sync.WaitGroup
+		for g := 0; g < 4; g++ {
+			wg2.Add(1)
+			go func(g int) {
+				defer wg2.Done()
+				for round := 0; round < 6; round++ {
+					for k := range ins {
+						i := (k + g*len(ins)/4 + round) % len(ins)
+						if out := p.Sanitize(ins[i]); out != want[i] {
+							mu.Lock()
+							if mism == 0 {
+								fmt.Printf("RACEBODY-MISMATCH policy=%s input=%q got=%q want=%q\n", s.Name, ins[i], out, want[i])
+							}
+							mism++
+							mu.Unlock()
+						}
+					}
+				}
+			}(g)
+		}
+		wg2.Wait()
+		calls2 += 4 * 6 * len(ins)
+	}
+	fmt.Printf("racebody: 4 goroutines x 2000 iterations on the shared policy, then %d concurrent calls over %d policies, mismatches=%d\n", calls2, len(c13SeqSpecs()), mism)
 	return 0
 }
 
